@@ -50,7 +50,8 @@ CONSTANTS
   Code_InactiveHookNotReleased,     \* a DESTROY hook task whose role is not ACTIVE is neither triggered nor released
   Code_AfterDestroyOverwrites,      \* after_DESTROY hooks replace DESTROY hooks of equal weight in the merged map
   Code_FirstMessageResent,          \* without DESTROY hooks the second release message is the first one again
-  Code_ClaimNotAtomic,              \* reuse: a task is claimed long before it is locked, nothing excludes a second claim
+  Code_ClaimNotAtomic,              \* reuse: a task is claimed long before it is locked; until then nothing excludes a
+                                    \* second claim or a Cleanup that kills it
   Code_RetryForgetsLaunched,        \* deployment retry drops the tasks launched by the failed attempt
   Code_InactiveDroppedUnkilled      \* doKillTasks drops tasks whose status is not ACTIVE without a KILL
 
@@ -121,7 +122,7 @@ VARIABLES
   triggered, \* [TaskIds -> hook task was triggered, it will exit]
   killSent,  \* [TaskIds -> a KILL call was sent]
   (* history *)
-  everOwned, \* [TaskIds -> environments that ever owned the task]
+  lastOwner, \* [TaskIds -> the last environment that owned the task | None]
   killedOwned, \* a KILL was sent for an owned task
   cmdForeign,  \* a transition of e commanded a task not owned by e
   conflictIn,  \* an environment was registered while one of its detectors was held
@@ -138,7 +139,7 @@ evars == <<listed, est, elock, pend>>
 avars == <<apc, att, cur, claimed, roleTask>>
 tdvars == <<tdp, tdwho, tdforce, relq, msg2, relerr>>
 tvars == <<tenv, trole, owner, inRoster, running, standby, alive, triggered, killSent, kq, ksent, ksel, kst, ksel, kst>>
-hvars == <<everOwned, killedOwned, cmdForeign, conflictIn, hooksEarly>>
+hvars == <<lastOwner, killedOwned, cmdForeign, conflictIn, hooksEarly>>
 vars == <<cvars, dvars, xvars, kpc, evars, avars, tdvars, tvars, hvars, ncalls>>
 
 (* ------------------------------------------------------------------------ *)
@@ -235,7 +236,7 @@ Init ==
   /\ tenv = [t \in TaskIds |-> None] /\ trole = [t \in TaskIds |-> None] /\ owner = [t \in TaskIds |-> None]
   /\ inRoster = [t \in TaskIds |-> FALSE] /\ running = [t \in TaskIds |-> FALSE] /\ standby = [t \in TaskIds |-> TRUE]
   /\ alive = [t \in TaskIds |-> FALSE] /\ triggered = [t \in TaskIds |-> FALSE] /\ killSent = [t \in TaskIds |-> FALSE]
-  /\ everOwned = [t \in TaskIds |-> {}] /\ killedOwned = FALSE /\ cmdForeign = FALSE
+  /\ lastOwner = [t \in TaskIds |-> None] /\ killedOwned = FALSE /\ cmdForeign = FALSE
   /\ conflictIn = FALSE /\ hooksEarly = FALSE
   /\ cret = [e \in Envs |-> "none"] /\ dret = [e \in Envs |-> "none"] /\ dkeep = [e \in Envs |-> FALSE]
   /\ ncalls = 0
@@ -275,7 +276,7 @@ CRegister(e) ==
   /\ listed' = listed \cup {e}
   /\ conflictIn' = (conflictIn \/ dets[e] \cap ActiveDets # {})
   /\ UNCHANGED <<wf, script, dets, snap, cret, ktargets, dvars, xvars, kpc, est, elock, pend, avars, tdvars, tvarsNoK,
-                 everOwned, killedOwned, cmdForeign, hooksEarly, ncalls>>
+                 lastOwner, killedOwned, cmdForeign, hooksEarly, ncalls>>
 
 \* [Hook env.lock.acquired DEPLOY] TryTransition(DEPLOY): the AcquireTasks message goes to the task manager
 CDeployLock(e) ==
@@ -301,7 +302,7 @@ Launchable(e) ==
 Claim(e, t) ==
   /\ apc[e] = "acq" /\ ReuseUnlocked /\ cur[e] = {} /\ att[e] = 1
   /\ Claimable(t) /\ t \notin claimed[e]
-  /\ Code_ClaimNotAtomic \/ \A e2 \in Envs : t \notin claimed[e2]
+  /\ Code_ClaimNotAtomic \/ (t \notin AllKsel /\ \A e2 \in Envs : t \notin claimed[e2])
   /\ trole[t] \in TaskRolesOf(e) \ RolesClaimed(e)
   /\ claimed' = [claimed EXCEPT ![e] = @ \cup {t}]
   /\ UNCHANGED <<cvars, dvars, xvars, kpc, evars, apc, att, cur, roleTask, tdvars, tvars, hvars, ncalls>>
@@ -345,7 +346,7 @@ Lock(e, t) ==
   /\ t \in cur[e] /\ owner[t] = None /\ ~inRoster[t]
   /\ apc' = [apc EXCEPT ![e] = "locking"]
   /\ owner' = [owner EXCEPT ![t] = e]
-  /\ everOwned' = [everOwned EXCEPT ![t] = @ \cup {e}]
+  /\ lastOwner' = [lastOwner EXCEPT ![t] = e]
   /\ roleTask' = [roleTask EXCEPT ![e][trole[t]] = t]
   /\ UNCHANGED <<cvars, dvars, xvars, kpc, evars, att, cur, claimed, tdvars, tenv, trole, inRoster, running, standby, alive,
                  triggered, killSent, kq, ksent, ksel, kst, killedOwned, cmdForeign, conflictIn, hooksEarly, ncalls>>
@@ -371,7 +372,7 @@ LockReused(e, t) ==
   /\ apc' = [apc EXCEPT ![e] = "locking"]
   /\ claimed' = [claimed EXCEPT ![e] = @ \ {t}]
   /\ owner' = [owner EXCEPT ![t] = e]
-  /\ everOwned' = [everOwned EXCEPT ![t] = @ \cup {e}]
+  /\ lastOwner' = [lastOwner EXCEPT ![t] = e]
   /\ roleTask' = [roleTask EXCEPT ![e][trole[t]] = t]
   /\ UNCHANGED <<cvars, dvars, xvars, kpc, evars, att, cur, tdvars, tenv, trole, inRoster, running, standby, alive,
                  triggered, killSent, kq, ksent, ksel, kst, killedOwned, cmdForeign, conflictIn, hooksEarly, ncalls>>
@@ -412,7 +413,7 @@ CConfigure(e, ok) ==
   /\ DoTransition(e, "CONFIGURE", ok)
   /\ cpc' = [cpc EXCEPT ![e] = IF ok THEN "ok" ELSE "tail"]
   /\ UNCHANGED <<wf, script, dets, snap, cret, ktargets, dvars, xvars, kpc, listed, elock, avars, tdvars, tenv, trole, owner, inRoster,
-                 running, alive, triggered, killSent, kq, ksent, ksel, kst, everOwned, killedOwned, conflictIn, hooksEarly, ncalls>>
+                 running, alive, triggered, killSent, kq, ksent, ksel, kst, lastOwner, killedOwned, conflictIn, hooksEarly, ncalls>>
 
 \* [ApiReply create OK]
 CReplyOk(e) ==
@@ -427,7 +428,7 @@ CTailGoError(e, ok) ==
   /\ cpc' = [cpc EXCEPT ![e] = "tail_td"]
   /\ ktargets' = [ktargets EXCEPT ![e] = EnvTasks(e)]
   /\ UNCHANGED <<wf, script, dets, snap, cret, dvars, xvars, kpc, listed, elock, avars, tdvars, tenv, trole, owner, inRoster,
-                 running, alive, triggered, killSent, kq, ksent, ksel, kst, everOwned, killedOwned, conflictIn, hooksEarly, ncalls>>
+                 running, alive, triggered, killSent, kq, ksent, ksel, kst, lastOwner, killedOwned, conflictIn, hooksEarly, ncalls>>
 
 \* the forced teardown of the tail runs as tdwho = "c" (actions Td* below); when it is over, or the
 \* environment is not found any more, KillTasks(envTasks) selects its victims (KillSelect, killer <<"ck", e>>)
@@ -518,7 +519,7 @@ TdHooks(e, T) ==
   /\ hooksEarly' = (hooksEarly \/ (Recognised(wf[e].hooks) # {} /\ \E t \in Msg1(e) : owner[t] = e))
   /\ tdp' = [tdp EXCEPT ![e] = "hooksdone"]
   /\ UNCHANGED <<cvars, dvars, xvars, kpc, evars, avars, tdwho, tdforce, relq, relerr, tenv, trole, owner, inRoster, running, standby,
-                 alive, killSent, kq, ksent, ksel, kst, everOwned, killedOwned, cmdForeign, conflictIn, ncalls>>
+                 alive, killSent, kq, ksent, ksel, kst, lastOwner, killedOwned, cmdForeign, conflictIn, ncalls>>
 
 \* [Hook env.teardown.phase cancelled] cancelCallsPendingAwait; the second message goes out
 TdCancel(e) ==
@@ -574,7 +575,7 @@ DPre(e, op, ok) ==
   /\ dforced' = [dforced EXCEPT ![e] = ~ok]
   /\ dkeepEff' = [dkeepEff EXCEPT ![e] = @ /\ ok]
   /\ UNCHANGED <<cvars, dpc, dfl, dret, dkeep, xvars, kpc, listed, elock, avars, tdvars, tenv, trole, owner, inRoster, running, alive,
-                 triggered, killSent, kq, ksent, ksel, kst, everOwned, killedOwned, conflictIn, hooksEarly, ncalls>>
+                 triggered, killSent, kq, ksent, ksel, kst, lastOwner, killedOwned, conflictIn, hooksEarly, ncalls>>
 
 \* no line: the decision to tear down (with force when the state does not allow a plain destroy)
 DGoTd(e) ==
@@ -620,7 +621,7 @@ XTrans(e, ok) ==
   /\ DoTransition(e, xop[e], ok)
   /\ xpc' = [xpc EXCEPT ![e] = IF ok THEN "reply" ELSE "goerr"]
   /\ UNCHANGED <<cvars, dvars, xop, kpc, listed, elock, avars, tdvars, tenv, trole, owner, inRoster, running, alive,
-                 triggered, killSent, kq, ksent, ksel, kst, everOwned, killedOwned, conflictIn, hooksEarly, ncalls>>
+                 triggered, killSent, kq, ksent, ksel, kst, lastOwner, killedOwned, conflictIn, hooksEarly, ncalls>>
 
 \* [Hook env.lock.release GO_ERROR] after a failed transition
 XGoError(e, ok) ==
@@ -628,7 +629,7 @@ XGoError(e, ok) ==
   /\ DoTransition(e, "GO_ERROR", ok)
   /\ xpc' = [xpc EXCEPT ![e] = IF ok THEN "reply" ELSE "force"]
   /\ UNCHANGED <<cvars, dvars, xop, kpc, listed, elock, avars, tdvars, tenv, trole, owner, inRoster, running, alive,
-                 triggered, killSent, kq, ksent, ksel, kst, everOwned, killedOwned, conflictIn, hooksEarly, ncalls>>
+                 triggered, killSent, kq, ksent, ksel, kst, lastOwner, killedOwned, conflictIn, hooksEarly, ncalls>>
 
 \* [Hook api.force.error] Sm.SetState("ERROR") outside the lock
 XForce(e) ==
@@ -677,7 +678,8 @@ KillerScope(k, t) ==
 KillBegin(k) ==
   /\ KillerPhase(k) /\ kst[k] = "idle"
   /\ kst' = [kst EXCEPT ![k] = "run"]
-  /\ ksel' = [ksel EXCEPT ![k] = {t \in TaskIds : inRoster[t] /\ ~Locked(t) /\ KillerScope(k, t)}]
+  /\ ksel' = [ksel EXCEPT ![k] = {t \in TaskIds : /\ inRoster[t] /\ ~Locked(t) /\ KillerScope(k, t)
+                                                   /\ (Code_ClaimNotAtomic \/ \A e \in Envs : t \notin claimed[e])}]
   /\ UNCHANGED <<cvars, dvars, xvars, kpc, evars, avars, tdvars, tvarsNoK, kq, ksent, hvars, ncalls>>
 
 \* [Hook task.kill.select] the task leaves the roster; a KILL is due when its status is ACTIVE (act; the core
@@ -699,7 +701,7 @@ KillSend(k, t) ==
   /\ killSent' = [killSent EXCEPT ![t] = TRUE]
   /\ killedOwned' = (killedOwned \/ Locked(t))
   /\ UNCHANGED <<cvars, dvars, xvars, kpc, evars, avars, tdvars, tenv, trole, owner, inRoster, running, standby, alive, triggered,
-                 ksel, kst, everOwned, cmdForeign, conflictIn, hooksEarly, ncalls>>
+                 ksel, kst, lastOwner, cmdForeign, conflictIn, hooksEarly, ncalls>>
 
 \* [MUpdate terminal state] the task is gone: killed (Mesos acknowledges the KILL), a triggered hook task
 \* finished, a scripted launch failure, or a fault
@@ -784,9 +786,13 @@ Post(e) ==
   /\ e \notin listed
   /\ \A t \in TaskIds : owner[t] # e
   \* asked to terminate (or selected for a KILL by a call that is still in progress)
-  /\ dkeep[e] \/ \A t \in TaskIds : (e \in everOwned[t] /\ alive[t]) => (killSent[t] \/ t \in AllKq \/ t \in AllKsel)
-  \* what it launched and is still alive without a KILL is unowned and in the roster: it falls to the next cleanup
-  /\ \A t \in TaskIds : (tenv[t] = e /\ alive[t] /\ ~killSent[t] /\ t \notin AllKq /\ t \notin AllKsel) => (inRoster[t] /\ owner[t] = None)
+  \* (a task another environment reused in the meantime is that environment's business: lastOwner)
+  /\ dkeep[e] \/ dpc[e] = "okreply"
+       \/ \A t \in TaskIds : (lastOwner[t] = e /\ alive[t] /\ owner[t] = None /\ \A e2 \in Envs : t \notin claimed[e2])
+                                => (killSent[t] \/ t \in AllKq \/ t \in AllKsel)
+  \* what it launched and is still alive without a KILL is in the roster (unowned: it falls to the next cleanup,
+  \* or reused by another environment)
+  /\ \A t \in TaskIds : (tenv[t] = e /\ alive[t] /\ ~killSent[t] /\ t \notin AllKq /\ t \notin AllKsel) => inRoster[t]
   /\ ~pend[e]
 PostOnReturn == \A e \in Envs : (dret[e] = "ok" \/ cret[e] = "err") => Post(e)
 \* a destroy that cannot be honoured returns an error (= PostOnReturn restricted to destroy)
